@@ -49,6 +49,9 @@ pub enum Tamper {
     Multi(u8, Multi),
     /// the same ciphertext in another encoding, offered to the raw decryptor: 0 GM/T 0009 SM2Cipher DER; 1 hex text; 2 DER with 04 prepended; 3 the other component order
     AltEncoding(u8),
+    /// C1 whose coordinates are special values #i, #j of {0, 1, p-1, p, n, 2^256-1} (uncompressed) or x = #i (compressed); C2/C3 left alone.
+    /// (0,0) is how some encoders write the point at infinity.
+    C1Special(u8, u8),
 }
 
 #[derive(Serialize, Deserialize, Hash, Debug, Clone)]
@@ -219,6 +222,14 @@ pub fn check(c: &Case) -> CaseResult {
             ct = assemble(&other, &parsed.c2, &parsed.c3, b.c1c3c2);
             class = "wrong-kind";
         }
+        Tamper::C1Special(i, j) => {
+            let vals: Vec<BigUint> = vec![BigUint::zero(), BigUint::from(1u32), pr.p - 1u32, pr.p.clone(), pr.n.clone(), (BigUint::from(1u32) << 256) - 1u32];
+            ct[1..33].copy_from_slice(&to32(&vals[*i as usize % vals.len()]));
+            if !b.compressed {
+                ct[33..65].copy_from_slice(&to32(&vals[*j as usize % vals.len()]));
+            }
+            class = "C1-special-coordinates";
+        }
         Tamper::AltEncoding(kind) => {
             let parsed = r2::parse_ciphertext(&bd.ct, b.compressed, b.c1c3c2).unwrap();
             let (x, y) = r2::xy(&parsed.c1).unwrap();
@@ -303,6 +314,7 @@ pub fn tamper_strategy() -> impl Strategy<Value = Tamper> {
         1 => Just(Tamper::None),
         6 => (prop_oneof![3 => Just(0u8), 1 => Just(1u8), 1 => Just(2u8), 1 => Just(3u8)], multi::strategy()).prop_map(|(r, m)| Tamper::Multi(r, m)),
         2 => (0..4u8).prop_map(Tamper::AltEncoding),
+        2 => (0..6u8, 0..6u8).prop_map(|(i, j)| Tamper::C1Special(i, j)),
     ]
 }
 
@@ -348,6 +360,11 @@ pub fn run(ctx: &Ctx) {
             v.push(Case { base: b.clone(), tamper: Tamper::WrongKind });
             for k in 0..4u8 {
                 v.push(Case { base: b.clone(), tamper: Tamper::AltEncoding(k) });
+            }
+            for i in 0..6u8 {
+                for j in 0..6u8 {
+                    v.push(Case { base: b.clone(), tamper: Tamper::C1Special(i, j) });
+                }
             }
         }
         v
